@@ -657,6 +657,52 @@ type c08Case struct {
 	class string
 	objs  map[pdf.Reference]pdf.Native
 	chain []string
+	// maxOut > 0: the intrinsic size (width x height x components) of the
+	// image the body declares
+	maxOut int64
+}
+
+// c08SequentialScans writes a baseline or extended-sequential JPEG (SOF0 / SOF1)
+// at the marker level whose frame is followed by several complete scans, each
+// listing all components; it returns the intrinsic size of the image.
+func c08SequentialScans(r *kit.Rand) ([]byte, int64) {
+	var b bytes.Buffer
+	seg := func(marker byte, payload []byte) {
+		b.Write([]byte{0xff, marker, byte((len(payload) + 2) >> 8), byte(len(payload) + 2)})
+		b.Write(payload)
+	}
+	b.Write([]byte{0xff, 0xd8})
+	q := []byte{0}
+	for i := 0; i < 64; i++ {
+		q = append(q, byte(1+i%5))
+	}
+	seg(0xdb, q)
+	dim := kit.Pick(r, []int{8, 64, 512, 2048})
+	nc := kit.Pick(r, []int{1, 3})
+	sofMarker := kit.Pick(r, []byte{0xc0, 0xc1, 0xc1})
+	sof := []byte{8, byte(dim >> 8), byte(dim), byte(dim >> 8), byte(dim), byte(nc)}
+	for i := 1; i <= nc; i++ {
+		sof = append(sof, byte(i), 0x11, 0)
+	}
+	seg(sofMarker, sof)
+	// DC table: category 0 = 00; AC table: end of block = 00
+	dcTab := append([]byte{0x00, 0, 1}, make([]byte, 14)...)
+	seg(0xc4, append(dcTab, 0))
+	acTab := append([]byte{0x10, 0, 1}, make([]byte, 14)...)
+	seg(0xc4, append(acTab, 0))
+	blocks := (dim / 8) * (dim / 8) * nc
+	scans := kit.Pick(r, []int{1, 2, 3, 20, 50})
+	for i := 0; i < scans; i++ {
+		hdr := []byte{byte(nc)}
+		for c := 1; c <= nc; c++ {
+			hdr = append(hdr, byte(c), 0x00)
+		}
+		seg(0xda, append(hdr, 0, 63, 0))
+		// per block: DC difference 0 (00) and end of block (00)
+		b.Write(make([]byte, blocks/2+1))
+	}
+	b.Write([]byte{0xff, 0xd9})
+	return b.Bytes(), int64(dim) * int64(dim) * int64(nc)
 }
 
 // c08ProgressiveScans writes a progressive JPEG at the marker level: any number
@@ -929,7 +975,11 @@ func c08Gen(r *kit.Rand, seeds []c08Seed, quick bool) c08Case {
 	case k < 18 && r.Chance(1, 5):
 		cs.class = "dct-scan-level"
 		cs.dict["Filter"] = pdf.Name("DCTDecode")
-		cs.body = c08ProgressiveScans(r)
+		if r.Chance(1, 4) {
+			cs.body, cs.maxOut = c08SequentialScans(r)
+		} else {
+			cs.body = c08ProgressiveScans(r)
+		}
 		cs.chain = []string{"DCTDecode"}
 	case k < 18 && r.Chance(1, 3):
 		cs.class = "jbig2-segment-level"
@@ -1066,6 +1116,12 @@ func c08Exec(c *kit.Case, mon *kit.Monitor, cs c08Case) {
 	}
 	if u.PeakHeap > memBound {
 		c.Violationf("heap/"+cs.class+"/"+filt, "%s\nlive heap grew by %d bytes, bound %d", ctx, u.PeakHeap, memBound)
+	}
+	if cs.maxOut > 0 && out > cs.maxOut {
+		c.Violationf("output-exceeds-intrinsic-size/"+filt, "%s\nthe image declares %d bytes of samples (width x height x components), the decoder produced %d", ctx, cs.maxOut, out)
+	}
+	if cs.maxOut > 0 && out == cs.maxOut {
+		c.R.Count("sequential_jpegs_decoded_to_their_intrinsic_size", 1)
 	}
 	if c08HasIntrinsic(cs.chain) && out >= c08DrainCap {
 		c.Violationf("output-unbounded/"+filt, "%s\na format with intrinsic dimensions produced more than %d bytes", ctx, c08DrainCap)
